@@ -666,10 +666,11 @@ class BloomFilterOnDisk(BloomFilter):
         with open(file, "r+b") as filepointer:
             offset = self._FOOTER_STRUCT.size
             filepointer.seek(offset * -1, os.SEEK_END)
-            est_els, _, fpr = self._FOOTER_STRUCT.unpack_from(filepointer.read(offset))
+            est_els, els_added, fpr = self._FOOTER_STRUCT.unpack_from(filepointer.read(offset))
 
             fpr, n_hashes, n_bits = self._get_optimized_params(est_els, fpr)
             self._set_values(est_els, fpr, n_hashes, n_bits, hash_function)
+            self._els_added = els_added
         # setup a few additional items
         self.__file_pointer = open(file, "r+b")  # type: ignore
         self._bloom = mmap(self.__file_pointer.fileno(), 0)  # type: ignore
